@@ -31,6 +31,10 @@ CATALOGUE = [
     ("caret-x-without-digits", ["{I}«.word »^X"], "invalid-number", "critical", ("T",)),
     ("divide-by-zero", ["{I}«.word »5 / 0"], "arithmetic-error", "error", ("T",)),
     ("modulo-by-zero", ["{I}«.word »7 % 0"], "arithmetic-error", "error", ("T",)),
+    # the offending sub-expression starts with a bracket (or is call-like) and is not the first term: blanks, tabs before it
+    ("divide-by-zero-bracketed", ["{I}«.word 1 + \t»(2) / 0"], "arithmetic-error", "error", ("T",)),
+    ("modulo-by-zero-angle", ["{I}«.word 1 +  »<2> % 0"], "arithmetic-error", "error", ("T",)),
+    ("call-like-value", ["{I}«.word 3 + »nofn9(4)"], "undefined-symbol", "error", ("T",)),
     ("negative-shift", ["{I}«.word »1 << ngsh", "ngsh = 0 - 3"], "arithmetic-error", "error", ("T",)),
     ("branch-too-far", ["{I}«br . + 1000"], "branch-out-of-bounds", "error", ("S",)),
     ("sob-forward", ["{I}«sob r1, . + 4"], "branch-out-of-bounds", "error", ("S",)),
